@@ -373,7 +373,7 @@ func snapshotMarker(dir string) string {
 	return pins[0].Name
 }
 
-const ruleBackups = "state machine on raft.CleanupRaft with retention N in 1-5 and a generated set of pre-existing backup folders (indices 0..N+1, each with a marker): populate (SnapshotSave of a pinset carrying a fresh marker), makeEmpty (data folder without snapshot), clean; model from the statement: after a clean of data holding a snapshot .old.0 holds it, a contiguous prefix of backups moved up by one, only index N-1 may disappear, nothing else changes, data without a snapshot is removed without a backup; for pre-existing sets with gaps only 'newest = old data and at most one backup lost' is asserted; non-trivial = at least 2 cleans of snapshot-holding data with pre-existing backups; distinct by script"
+const ruleBackups = "state machine on raft.CleanupRaft with retention N in 1-5 and a generated set of pre-existing backup folders (indices 0..N+1, each with a marker): populate (SnapshotSave of a pinset carrying a fresh marker, or of the empty pinset), damageSnapshot (the snapshot file overwritten so that it no longer matches its checksum), makeEmpty (data folder without snapshot), clean; model from the statement: after a clean of data holding a snapshot .old.0 holds it, a contiguous prefix of backups moved up by one, only index N-1 may disappear, nothing else changes, data without a snapshot is removed without a backup; for pre-existing sets with gaps only 'newest = old data and at most one backup lost' is asserted; non-trivial = at least 2 cleans of snapshot-holding data with pre-existing backups; distinct by script"
 
 func TestBackups(t *testing.T) {
 	leg := ev.L("backups", ruleBackups)
@@ -431,6 +431,36 @@ func TestBackups(t *testing.T) {
 				}
 				data = id
 				script = append(script, "populate("+id+")")
+			},
+			"populateEmptyPinset": func(t *rapid.T) {
+				// a snapshot of the empty pinset is still a snapshot (0 bytes long)
+				if data != "" {
+					t.Skip("data folder in use")
+				}
+				if err := raft.SnapshotSave(cfg, newState(), gen.Peers[:1]); err != nil {
+					t.Fatalf("SnapshotSave: %v", err)
+				}
+				data = "?0 pins"
+				script = append(script, "populate(empty pinset)")
+			},
+			"damageSnapshot": func(t *rapid.T) {
+				// the newest snapshot cannot be read any more (bit rot, a
+				// crash while it was written): the data still holds a snapshot
+				// and a clean must set it aside, not delete it
+				if data == "" || data == "-" {
+					t.Skip("no snapshot to damage")
+				}
+				files, _ := filepath.Glob(filepath.Join(cfg.DataFolder, "snapshots", "*", "state.bin"))
+				if len(files) == 0 {
+					t.Fatalf("harness: no snapshot file under %s", cfg.DataFolder)
+				}
+				for _, f := range files {
+					ioutil.WriteFile(f, []byte("damaged snapshot contents, not what the checksum says"), 0600)
+				}
+				n++
+				data = fmt.Sprintf("damaged%d", n)
+				writeMarker(cfg.DataFolder, data)
+				script = append(script, "damageSnapshot("+data+")")
 			},
 			"makeEmpty": func(t *rapid.T) {
 				if data != "" {
@@ -648,13 +678,15 @@ func TestPeerstoreRoundTrip(t *testing.T) {
 }
 
 func TestPeerstoreFile(t *testing.T) {
-	leg := ev.L("peerstore-file", "peerstore files made of valid address lines interleaved with garbage: empty lines, text, lines starting with '/' that are not multiaddresses, truncated addresses, lines up to 10 KB, missing trailing newline, CRLF; oracle: no panic, every returned address is non-nil, and the valid lines are returned in order; non-trivial = at least one malformed line starting with '/' and one valid line; distinct by file content")
+	leg := ev.L("peerstore-file", "peerstore files made of valid address lines interleaved with garbage: empty lines, text, lines starting with '/' that are not multiaddresses, well-formed addresses without a peer ID, truncated addresses, lines up to 10 KB, missing trailing newline, CRLF; oracle: no panic, every returned address is non-nil, the valid lines are returned in order, and after ImportPeers every peer named by a valid line has an address; non-trivial = at least one malformed line starting with '/' and one valid line; distinct by file content")
 	h := fakes.NewHost(gen.PeerKeys[7], false)
 	rapid.Check(t, func(t *rapid.T) {
 		file := filepath.Join(workdir, "peerstore-fuzz")
 		var lines []string
 		var valid []string
 		badSlash, nvalid := false, 0
+		noPeerLine := false
+		validPeers := map[peer.ID]bool{}
 		n := rapid.IntRange(0, 10).Draw(t, "nlines")
 		for i := 0; i < n; i++ {
 			switch rapid.IntRange(0, 6).Draw(t, "kind") {
@@ -663,9 +695,18 @@ func TestPeerstoreFile(t *testing.T) {
 				a := addrFor(t, p).String() + "/p2p/" + p.Pretty()
 				lines = append(lines, a)
 				valid = append(valid, a)
+				validPeers[p] = true
 				nvalid++
 			case 2:
-				lines = append(lines, "")
+				if rapid.Bool().Draw(t, "noPeerID") {
+					// a well-formed multiaddress that names no peer: it is
+					// loaded, cannot be imported, and must not stand in the
+					// way of the lines after it
+					lines = append(lines, rapid.SampledFrom([]string{"/ip4/10.0.0.9/tcp/9096", "/dns4/nopeer.example.org/tcp/9096"}).Draw(t, "nopeer"))
+					noPeerLine = true
+				} else {
+					lines = append(lines, "")
+				}
 			case 3:
 				lines = append(lines, rapid.SampledFrom([]string{"# comment", "hello", "ip4/1.2.3.4", " /ip4/1.2.3.4/tcp/1"}).Draw(t, "text"))
 			case 4:
@@ -692,9 +733,21 @@ func TestPeerstoreFile(t *testing.T) {
 					t.Fatalf("LoadPeerstore panicked: %v\nfile: %q", r, content)
 				}
 			}()
+			for _, p := range gen.Peers[:8] {
+				h.Peerstore().ClearAddrs(p)
+			}
 			loaded = pm.LoadPeerstore()
 			pm.ImportPeers(loaded, false, time.Hour)
 		}()
+		// every peer named by a valid line is known to the host afterwards
+		for p := range validPeers {
+			if p == h.ID() {
+				continue
+			}
+			if len(h.Peerstore().Addrs(p)) == 0 {
+				t.Fatalf("peer %s has a valid line in the file but no address was imported for it (line without peer ID present: %v)\nfile: %q", p, noPeerLine, content)
+			}
+		}
 		var got []string
 		for _, a := range loaded {
 			if a == nil {
@@ -715,7 +768,11 @@ func TestPeerstoreFile(t *testing.T) {
 				t.Fatalf("valid lines were not all returned in order:\nvalid %v\ngot %v\nfile: %q", valid, got, content)
 			}
 		}
-		leg.Case(content, badSlash && nvalid > 0)
+		cls := []string{}
+		if noPeerLine {
+			cls = append(cls, "line-without-peer-id")
+		}
+		leg.Case(content, badSlash && nvalid > 0, cls...)
 	})
 }
 
